@@ -107,13 +107,13 @@ type point struct {
 func (p point) ts() int64 { return baseTime + int64(p.Slot)*storageIntervalMs + p.Off }
 
 type dataset struct {
-	TwoFamilies bool        `json:"twoFamilies"`
+	TwoFamilies bool `json:"twoFamilies"`
 	// Wide: the first metric has 40-70 series over 30 hosts, so that `group by host` has more groups than
 	// the default limit (20) of a query and (with a second tag key) the series of a host live in several shards
-	Wide bool `json:"wide,omitempty"`
-	Metrics     []metricDef `json:"metrics"`
-	Series      []seriesDef `json:"series"`
-	Batches     [][]point   `json:"batches"` // ingestion requests in order
+	Wide    bool        `json:"wide,omitempty"`
+	Metrics []metricDef `json:"metrics"`
+	Series  []seriesDef `json:"series"`
+	Batches [][]point   `json:"batches"` // ingestion requests in order
 }
 
 var fieldPool = []fieldDef{{"s1", tSum}, {"s2", tSum}, {"mn", tMin}, {"mx", tMax}, {"la", tLast}, {"fi", tFirst}}
@@ -121,8 +121,14 @@ var fieldPool = []fieldDef{{"s1", tSum}, {"s2", tSum}, {"mn", tMin}, {"mx", tMax
 // wideHosts: host values of a wide data set (> the default limit 20 of a query).
 const wideHosts = 30
 
-func genDataset(t *rapid.T) *dataset {
+func genDataset(t *rapid.T) *dataset { return genDatasetWith(t, false) }
+
+// genDatasetWith: with ties set, the data set is made for `order by`: at least 5 series that mostly report every
+// field, and (3 of 4 data sets) values from {-1, 0, 1, 2, 3}, so that the sums / minima / maxima / counts / first and
+// last values of different groups are often equal and a later order by item has to decide.
+func genDatasetWith(t *rapid.T, ties bool) *dataset {
 	d := &dataset{}
+	smallValues := ties && rapid.IntRange(0, 3).Draw(t, "smallValues") > 0
 	// 1 of 8 data sets is wide (see dataset.Wide)
 	d.Wide = rapid.IntRange(0, 7).Draw(t, "wideDataset") == 0
 	nMetrics := rapid.SampledFrom([]int{1, 1, 1, 2, 2, 3}).Draw(t, "nMetrics")
@@ -148,7 +154,12 @@ func genDataset(t *rapid.T) *dataset {
 		sort.Slice(md.Fields, func(i, j int) bool { return md.Fields[i].Name < md.Fields[j].Name })
 		d.Metrics = append(d.Metrics, md)
 	}
-	nSeries := rapid.IntRange(nMetrics+1, 12).Draw(t, "nSeries")
+	nSeries := 0
+	if ties {
+		nSeries = rapid.IntRange(5, 12).Draw(t, "nSeries")
+	} else {
+		nSeries = rapid.IntRange(nMetrics+1, 12).Draw(t, "nSeries")
+	}
 	nWide := 0
 	if d.Wide {
 		// a fixed ladder (an integer range is drawn mostly near its lower end); the other metric gets <= 4 series
@@ -211,7 +222,11 @@ func genDataset(t *rapid.T) *dataset {
 		}
 		seen[key] = true
 		sd := seriesDef{Metric: m, Tags: tags}
-		if len(md.Fields) == 1 || rapid.IntRange(0, 9).Draw(t, "allFields") < 6 {
+		allBelow := 6
+		if ties {
+			allBelow = 9
+		}
+		if len(md.Fields) == 1 || rapid.IntRange(0, 9).Draw(t, "allFields") < allBelow {
 			for i := range md.Fields {
 				sd.Fields = append(sd.Fields, i)
 			}
@@ -279,7 +294,11 @@ func genDataset(t *rapid.T) *dataset {
 				p.Off = rapid.Int64Range(0, storageIntervalMs-1).Draw(t, "off")
 			}
 			for _, fi := range sd.Fields {
-				p.Vals[fi] = float64(rapid.IntRange(-400, 400).Draw(t, "v")) / 8
+				if smallValues {
+					p.Vals[fi] = float64(rapid.SampledFrom([]int{0, 1, 1, 2, 2, 3, -1}).Draw(t, "v"))
+				} else {
+					p.Vals[fi] = float64(rapid.IntRange(-400, 400).Draw(t, "v")) / 8
+				}
 			}
 			d.Batches[reqs[i]] = append(d.Batches[reqs[i]], p)
 		}
@@ -332,13 +351,31 @@ func sf(name string, typ protoMetricsV1.SimpleFieldType, v float64) *protoMetric
 type selItem struct {
 	Field string `json:"field"`
 	Func  string `json:"func"` // "" = plain
+	// Alias (`expr as alias`): only drawn for statements with an order by clause
+	Alias string `json:"alias,omitempty"`
 }
 
+// text: the expression (the name of its values in the result set when the item has no alias).
 func (s selItem) text() string {
 	if s.Func == "" {
 		return s.Field
 	}
 	return s.Func + "(" + s.Field + ")"
+}
+
+// name: the name of the item's values in the result set (aggregation/expression.go: alias, else the expression).
+func (s selItem) name() string {
+	if s.Alias != "" {
+		return s.Alias
+	}
+	return s.text()
+}
+
+func (s selItem) sqlText() string {
+	if s.Alias != "" {
+		return s.text() + " as " + s.Alias
+	}
+	return s.text()
 }
 
 type cond struct {
@@ -427,6 +464,8 @@ type querySpec struct {
 	// Limit: explicit `limit N` (0: no limit clause, the parser's default limit applies)
 	Limit     int    `json:"limit,omitempty"`
 	LimitKind string `json:"limitKind,omitempty"`
+	// OrderBy: `order by <item> [asc|desc] {, <item> [asc|desc]}` (see orderby_test.go)
+	OrderBy []orderItem `json:"orderBy,omitempty"`
 }
 
 // defaultLimit is the limit of a query without a limit clause (sql/query_stmt_parser.go).
@@ -466,7 +505,7 @@ func (q *querySpec) sql(d *dataset) string {
 			if i > 0 {
 				b.WriteString(", ")
 			}
-			b.WriteString(it.text())
+			b.WriteString(it.sqlText())
 		}
 	}
 	b.WriteString(" from " + name + " where ")
@@ -481,6 +520,14 @@ func (q *querySpec) sql(d *dataset) string {
 	}
 	if len(gb) > 0 {
 		b.WriteString(" group by " + strings.Join(gb, ","))
+	}
+	for i, o := range q.OrderBy {
+		if i == 0 {
+			b.WriteString(" order by ")
+		} else {
+			b.WriteString(", ")
+		}
+		b.WriteString(o.text())
 	}
 	if q.Limit > 0 {
 		fmt.Fprintf(&b, " limit %d", q.Limit)
@@ -567,6 +614,13 @@ func genCondLeaf(t *rapid.T, d *dataset, mi int, md metricDef) *cond {
 }
 
 func genQuery(t *rapid.T, d *dataset, group string) *querySpec {
+	return genQueryWith(t, d, group, false)
+}
+
+// genQueryWith: orderMode = the statement of TestOrderByLayoutIndependence: a select list (no *), mostly grouped by
+// tags over the whole time range, always with an order by clause and a limit drawn around the number of groups.
+// Otherwise 1 of 5 grouped statements with a select list gets an order by clause (its limit clause stays as drawn).
+func genQueryWith(t *rapid.T, d *dataset, group string, orderMode bool) *querySpec {
 	q := &querySpec{}
 	q.Metric = rapid.IntRange(0, len(d.Metrics)-1).Draw(t, "qMetric")
 	if rapid.IntRange(0, 19).Draw(t, "unknownMetric") == 0 {
@@ -584,7 +638,7 @@ func genQuery(t *rapid.T, d *dataset, group string) *querySpec {
 		candidates[i] = i
 	}
 	ragged := q.Metric >= 0 && len(d.commonFields(q.Metric)) < len(md.Fields)
-	q.All = rapid.IntRange(0, 4).Draw(t, "selectAll") == 0
+	q.All = rapid.IntRange(0, 4).Draw(t, "selectAll") == 0 && !orderMode
 	if q.All && ragged && ev.Known(sigSelectStar) {
 		q.All = false
 		ev.Class(group, "excluded_known", 1)
@@ -652,8 +706,15 @@ func genQuery(t *rapid.T, d *dataset, group string) *querySpec {
 	default: // nothing was written there
 		q.StartS, q.EndS = -3600, -3000
 	}
+	if orderMode && rapid.IntRange(0, 2).Draw(t, "orderWholeRange") > 0 {
+		q.StartS, q.EndS = -60, 420
+	}
 	q.Interval = rapid.SampledFrom([]int{0, 0, 10, 20, 30, 60, 300}).Draw(t, "interval")
-	switch rapid.IntRange(0, 3).Draw(t, "groupKind") {
+	groupKind := rapid.IntRange(0, 3).Draw(t, "groupKind")
+	if orderMode && groupKind == 0 && rapid.IntRange(0, 9).Draw(t, "orderUngrouped") > 0 {
+		groupKind = 1
+	}
+	switch groupKind {
 	case 0:
 	case 1, 2:
 		q.GroupBy = []string{rapid.SampledFrom(md.TagKeys).Draw(t, "groupKey")}
@@ -669,6 +730,14 @@ func genQuery(t *rapid.T, d *dataset, group string) *querySpec {
 		q.GroupBy = []string{"host"}
 	}
 	genLimit(t, d, q)
+	if !q.All && len(q.Items) > 0 {
+		switch {
+		case orderMode:
+			genOrderBy(t, d, q, group, true)
+		case len(q.GroupBy) > 0 && rapid.IntRange(0, 4).Draw(t, "orderBy") == 0:
+			genOrderBy(t, d, q, group, false)
+		}
+	}
 	return q
 }
 
@@ -813,7 +882,7 @@ func evalModelOn(d *dataset, q *querySpec, only func(series int) bool) *modelOut
 				}
 				matched[p.Series] = true
 				out.groupOf[p.Series] = key
-				c := cell{key, it.text(), ts}
+				c := cell{key, it.name(), ts}
 				out.present[c] = true
 				aggs[c] = md.Fields[fi].Type.aggOf(it.Func)
 				feeds[c] = append(feeds[c], feed{slotStart, v})
